@@ -76,6 +76,7 @@ type c12Req struct {
 	Port    string
 	Rem     string
 	Args    []string
+	Follow  bool // sent under the previous request's session id with the next odd number
 	Ints    [4]int // method, priv, type, service
 	Body    []byte
 	Clear   bool
@@ -180,6 +181,12 @@ func runC12(b *mon.B) {
 					q.Garbage, q.Clear = true, true
 					q.Body = r.Bytes(r.Intn(40))
 				}
+				if k > 0 && r.Chance(1, 5) {
+					// a further record of the "same" accounting session (start, then updates, then stop
+					// under one session id): every packet is a request of its own
+					q.Follow = true
+					cu += "+same-session-id"
+				}
 				q.Class = fmt.Sprintf("flags:%s/%s/port:%s/args:%s/n%s", flagClass(q.Flags), cu, cp, ca, lenBucket(len(q.Args)))
 				plans[ci] = append(plans[ci], q)
 			}
@@ -203,12 +210,18 @@ func runC12(b *mon.B) {
 			go func(ci int) {
 				defer wg.Done()
 				rc := newRefConn(ref, (round*64+ci)%60000+1, key)
+				var prev rfc8907.Header
 				for _, q := range plans[ci] {
 					fl := 0
 					if q.Clear {
 						fl = 1
 					}
 					h := rfc8907.Header{Major: 0xc, Minor: 0, Type: 3, Seq: q.Seq, Flags: fl, Session: uint32(len(results[ci]) + 1 + ci<<16)}
+					if q.Follow && prev.Seq != 0 && prev.Seq < 250 {
+						h.Session, h.Seq = prev.Session, prev.Seq+2
+						q.Seq = h.Seq
+					}
+					prev = h
 					res := rc.send(h, q.Body, !q.Garbage)
 					o := outcome{q: q, nrep: len(res.Replies), writeT: rc.c.LastWriteT(), closed: res.State.Closed}
 					if res.Err != nil {
